@@ -42,6 +42,11 @@ const (
 //	}
 const ExtensionName = "message_set_extension"
 
+// errInvalidFieldNumber is returned for a field outside an item whose number is
+// beyond the valid range. The table-driven decoder rejects such a tag in every
+// other message, and the validator used for lazy decoding rejects it here too.
+var errInvalidFieldNumber = errors.New("invalid field number in message set")
+
 // IsMessageSet returns whether the message uses the MessageSet wire format.
 func IsMessageSet(md protoreflect.MessageDescriptor) bool {
 	xmd, ok := md.(interface{ IsMessageSet() bool })
@@ -82,6 +87,9 @@ func Unmarshal(b []byte, wantLen bool, fn func(typeID protowire.Number, value []
 		}
 		b = b[n:]
 		if num != FieldItem || wtyp != protowire.StartGroupType {
+			if !num.IsValid() {
+				return errInvalidFieldNumber
+			}
 			n := protowire.ConsumeFieldValue(num, wtyp, b)
 			if n < 0 {
 				return protowire.ParseError(n)
